@@ -414,7 +414,9 @@ fn decode_to_sink<Sink, A>(
             },
         }
         input.pop_front(bytes_read as u32);
-        if input.is_empty() {
+        // At the end of the stream the decoder may still hold input it has to hand back
+        // (encoding_rs: call again with `last` set until it answers `InputEmpty`).
+        if input.is_empty() && !last {
             return;
         }
     }
